@@ -10,8 +10,8 @@ Open Scope Z_scope.
    op 4 block : [4; VZ ip_in_global_table; VZ has_global_rules; VL [[match cmd] ...]; VZ has_product_rules; VL [[match cmd] ...]]
                                                                                                                => [conn_refused; req_closed] *)
 Definition b (z : Z) : bool := negb (z =? 0).
-Definition dec_opt (v : val) : option (option Z) :=
-  match v with VL [VZ p; VZ x] => Some (if p =? 0 then None else Some x) | _ => None end.
+Definition dec_opt (v : val) : option claim :=      (* [kind value]: kind 0 absent, 1 number, other = non-numeric JSON *)
+  match v with VL [VZ p; VZ x] => Some (if p =? 0 then CAbsent else if p =? 1 then CNum x else CBad) | _ => None end.
 Definition dec_claims (v : val) : option claims :=
   match v with
   | VL [e; i; n] => match dec_opt e, dec_opt i, dec_opt n with
@@ -58,11 +58,16 @@ Definition agree_C51 (i o : val) : bool := val_eqb (run_C51 i) o.
 
 (* ---- the property, from the statement: forwarded iff the credentials are valid under the documented scheme *)
 (* JWT: "signed with a configured key using that key's algorithm and within its time claims" *)
+(* time claims per RFC 7519: a present claim must be a number and must hold *)
+Definition claims_valid (c : claims) (now : Z) : bool :=
+  match c_exp c with CAbsent => true | CNum e => now <=? e | CBad => false end
+  && match c_iat c with CAbsent => true | CNum i => i <=? now | CBad => false end
+  && match c_nbf c with CAbsent => true | CNum n => n <=? now | CBad => false end.
 Definition jwt_valid (auth : bytes) (mal : bool) (alg : Z) (c : claims) (now : Z) (keys : list jkey) : bool :=
   match get_token auth with
   | None => false
   | Some _ =>
-    negb mal && claims_ok c now
+    negb mal && claims_valid c now
     && existsb (fun k => ((k_alg k =? 0) || (k_alg k =? alg)) && alg_compat alg (k_kty k) && k_sig_ok k) keys
   end.
 Definition link_valid (he : bool) (expires checksum digest : bytes) (now : Z) : bool :=
@@ -117,6 +122,16 @@ Definition prop_C51 (i o : val) : bool :=
   | _ => false
   end.
 
-(* no open finding: the algorithm-confusion acceptance (HS256 token under a key declared HS512) was repaired in
-   /repo commit dccedcf and the model follows the repaired code *)
-Definition kf_C51 (i : val) : Z := 0.
+(* known finding 2: a token with a time claim that is the number 0 or not a number at all (e.g. "exp":"1600000000")
+   passes the time check although it is expired / malformed (jwt-go v3.2.0 MapClaims ignores such claims).
+   (finding 1, the algorithm mismatch, was repaired in /repo commit dccedcf and the model follows the repaired code) *)
+Definition kf_C51 (i : val) : Z :=
+  match i with
+  | VL [VZ 2; VB auth; VZ mal; VZ alg; cl; VZ now; ks; _] =>
+    match dec_claims cl, dec_keys ks with
+    | Some c, Some keys =>
+      if jwt_accept auth (b mal) alg c now keys && negb (jwt_valid auth (b mal) alg c now keys) then 2 else 0
+    | _, _ => 0
+    end
+  | _ => 0
+  end.
